@@ -389,7 +389,7 @@ static int corpus_next(corpus_iter *it) {
         }
         case 2: { /* S1c: length 1..8 over {1,2} */
             if (i >= 510) {
-                it->stage++;
+                it->stage = 30;
                 it->i = 0;
                 continue;
             }
@@ -405,6 +405,24 @@ static int corpus_next(corpus_iter *it) {
             it->n = n;
             strcpy(it->family, "S1c");
             snprintf(it->desc, sizeof it->desc, "S1c len=%zu bits=%" PRIu64, n, t);
+            it->i++;
+            return 1;
+        }
+        case 30: { /* S1d: all arrays of length 4 over an 8-value boundary alphabet */
+            static const uint64_t A8[8] = {0, 1, 127, 128, 255, 256, 65535, 4294967296ULL};
+            if (i >= 4096) {
+                it->stage = 3;
+                it->i = 0;
+                continue;
+            }
+            uint64_t t = i;
+            for (size_t k = 0; k < 4; k++) {
+                it->v[k] = A8[t % 8];
+                t /= 8;
+            }
+            it->n = 4;
+            strcpy(it->family, "S1d");
+            snprintf(it->desc, sizeof it->desc, "S1d len=4 idx=%" PRIu64, i);
             it->i++;
             return 1;
         }
